@@ -6,8 +6,36 @@ contents are.
 -/
 import ElfioVerif.Model.TableQuery
 import ElfioVerif.Lemmas.Reloc
+import ElfioVerif.Lemmas.SymbolsTie
+import ElfioVerif.Lemmas.SymTie
 namespace ElfioVerif
 open Gen
+
+/-! ### bridging lemmas for the generated expressions only the fixed walks of Model/TableQuery.lean use -/
+namespace TQTie
+theorem sysv_step_init : tq_sysv_step_init = 0 := rfl
+theorem sysv_step_incr (s : BitVec 32) : tq_sysv_step_incr s = s + 1 := rfl
+theorem hash_is_sysv (ty : BitVec 32) : tq_sym_hash_is_sysv ty = (ty == BitVec.ofNat 32 SHT_HASH) := rfl
+theorem hash_is_gnu (ty : BitVec 32) :
+    tq_sym_hash_is_gnu ty = (ty == BitVec.ofNat 32 SHT_GNU_HASH || ty == BitVec.ofNat 32 DT_GNU_HASH) := rfl
+theorem linear_needed (b : Bool) : tq_sym_linear_needed b = !b := rfl
+theorem gnu_is32 (c : Cls) : tq_sym_gnu_is32 (SymTab.clsByte c) = (c == .c32) := by cases c <;> decide
+theorem gnuLookupT_dispatch (t : SymTab) :
+    TQ.gnuLookupT (tq_sym_gnu_is32 (SymTab.clsByte t.cfg.cls)) t = TQ.gnuLookup t := by
+  unfold TQ.gnuLookup SymTab.c32
+  rw [gnu_is32]
+theorem vr_i_init_eq : vr_i_init = 0 := rfl
+theorem vd_i_init_eq : vd_i_init = 0 := rfl
+theorem vr_pos_init_eq : tq_vr_pos_init = 0 := by decide
+theorem vd_pos_init_eq : tq_vd_pos_init = 0 := by decide
+theorem vr_i_incr_eq (i : BitVec 32) : vr_i_incr i = i + 1 := rfl
+theorem vd_i_incr_eq (i : BitVec 32) : vd_i_incr i = i + 1 := rfl
+end TQTie
+
+/-- `sym_tie` plus the C18-only sites -/
+macro "tq_tie" loc:(Lean.Parser.Tactic.location)? : tactic =>
+  `(tactic| (sym_tie $[$loc]?; try simp only [TQTie.sysv_step_init, TQTie.sysv_step_incr, TQTie.hash_is_sysv,
+      TQTie.hash_is_gnu] $[$loc]?))
 
 namespace C18
 
@@ -123,7 +151,7 @@ theorem symbolsNum_spec (t : SymTab) :
       exact Nat.le_refl _
     · rw [if_neg hc]
       exact ⟨0, rfl, by simp, fun h => absurd rfl h⟩
-  unfold SymTab.symbolsNum
+  rw [SymTab.symbolsNum_hand]
   cases cls
   · exact key sym_num_min32 (by decide)
   · exact key sym_num_min64 (by decide)
@@ -151,7 +179,8 @@ theorem bind_ok_eq {α β : Type} {x : M α} {a : α} (f : α → M β) (h : x =
 /-- `get_symbol(index, …)` is memory-safe for every index on every table whose sections are `Sec` -/
 theorem getSymbol_total (t : SymTab) (ht : TabOk t) (i : BitVec 64) (str : Bytes) (a : Attrs) :
     ∃ r, t.getSymbol i str a = .ok r := by
-  unfold SymTab.getSymbol SymTab.guardNum
+  rw [SymTie.getSymbol_unfold]
+  unfold SymTab.guardNum
   simp only [ht.sym.secData, sym32_get_guard, sym64_get_guard, sym32_get_off, sym64_get_off, ite_self]
   cases hd : t.sym.data with
   | none => exact ⟨_, rfl⟩
@@ -173,7 +202,8 @@ theorem getSymbol_total (t : SymTab) (ht : TabOk t) (i : BitVec 64) (str : Bytes
 
 /-- `generic_get_symbol_ptr<T>(i)` + the `st_value` read of the by-value search -/
 theorem symPtrValue_total (t : SymTab) (ht : TabOk t) (i : BitVec 64) : ∃ r, t.symPtrValue i = .ok r := by
-  unfold SymTab.symPtrValue SymTab.guardNum
+  rw [SymTie.symPtrValue_unfold]
+  unfold SymTab.guardNum
   simp only [ht.sym.secData, sym32_ptr_guard, sym64_ptr_guard, sym32_ptr_off, sym64_ptr_off, ite_self]
   cases hd : t.sym.data with
   | none => exact ⟨_, rfl⟩
@@ -332,7 +362,7 @@ theorem relGetResolved_total (enc : Enc) (b : SecBuf) (hs : Sec b) (symtab : Opt
     split
     · exact ⟨_, rfl⟩
     · obtain ⟨g, hg⟩ := getSymbol_total t (ht t rfl)
-        (BitVec.setWidth 64 (r.getD { offset := 0, symbol := 0, type := 0, addend := 0 }).symbol) [] {}
+        (tq_reloc_sym_index (r.getD { offset := 0, symbol := tq_reloc_symbol_init, type := 0, addend := 0 }).symbol) [] {}
       rw [hg]; exact ⟨_, rfl⟩
 
 /-! ### the SysV hash walk (after fixes/11, 12) -/
@@ -360,6 +390,7 @@ theorem sysvLoop_total (t : SymTab) (ht : TabOk t) {h : SecBuf} (hs : Sec h) {d 
   | zero =>
     intro y steps str a hf
     unfold TQ.sysvLoop
+    tq_tie
     have : tq_sysv_step_ok steps nchain = false := by
       simp only [tq_sysv_step_ok, BitVec.ult, decide_eq_false_iff_not]; omega
     simp only [this, Bool.and_false, Bool.false_eq_true, if_false]
@@ -367,6 +398,7 @@ theorem sysvLoop_total (t : SymTab) (ht : TabOk t) {h : SecBuf} (hs : Sec h) {d 
   | succ k ih =>
     intro y steps str a hf
     unfold TQ.sysvLoop
+    tq_tie
     split
     · rename_i hc
       simp only [Bool.and_eq_true, sysv_walk_lt_nchain, tq_sysv_step_ok, BitVec.ult, decide_eq_true_eq] at hc
@@ -394,6 +426,7 @@ theorem sysvLoop_total (t : SymTab) (ht : TabOk t) {h : SecBuf} (hs : Sec h) {d 
 theorem hashLookup_total (t : SymTab) (ht : TabOk t) (h : SecBuf) (hs : Sec h) (name : Bytes) (a : Attrs) :
     ∃ r, TQ.hashLookup t h name a = .ok r := by
   unfold TQ.hashLookup
+  tq_tie
   simp only [hs.secData]
   by_cases hb : tq_sysv_hdr_bad h.data.isNone h.size = true
   · rw [if_pos hb]; exact ⟨_, rfl⟩
